@@ -58,6 +58,13 @@ def gen_mixed(g, tier, which):
                 f = [f32(x) for x in fvals(g, nf, sp)]
                 if op == 'mp.minkowski' and i % 5 == 0:       # nearly fully polarised pair: cancellation exposes a narrow accumulator
                     f = [5.0, 3.0, 0.0, 4.0]; d = [5.0 + 10.0 ** -g.randint(3, 9), 3.0, 0.0, 4.0]
+                elif op == 'mp.minkowski' and i % 5 == 1:     # the double operand rounds to the float operand without being equal to it
+                    f = [f32(x) for x in g.choice([[16777216.0, 16777216.0, 0.0, 0.0], [3.0, 1.0, -2.0, 0.5], fvals(g, 4, False)])]
+                    d = [x * (1.0 + g.choice([-1, 1]) * 10.0 ** -g.randint(9, 12)) if x != 0 else 0.0 for x in f]
+                    if f[0] == 16777216.0: d = [16777216.5, 16777215.75, 0.0, 0.0]
+                elif op in ('mp.biquat', 'mp.quat') and i % 4 == 1:   # the wider operand is a pure scalar that the narrower type cannot hold
+                    d = [0.0] * nd; d[0] = g.choice([1.0 / 3, 1e40, 1e-60, -7e45, 0.1, 3.0])
+                    if op == 'mp.biquat': d[1] = g.choice([0.25, 0.0, 1e41, -1e-70, 1.0 / 7])
                 else:
                     d = fvals(g, nd, sp)
                 line = '%s %s %s' % (op, ' '.join(dhex(x) for x in f), ' '.join(dhex(x) for x in d))
